@@ -5,7 +5,7 @@ schedules and faults; every impl trace must be accepted by System.step (coqc vm_
 Coq monitors; Python oracles judge impl's trace and final state directly (harness/syscheck.py)."""
 from harness import core, syscheck
 
-MODES = {'plain': 4, 'racing_try': 3, 'kill': 2, 'sbatchfail': 1, 'hooks': 1, 'write': 1}
+MODES = {'plain': 4, 'multigroup': 2, 'racing_try': 3, 'kill': 2, 'sbatchfail': 1, 'hooks': 1, 'write': 1}
 
 
 def run(chk):
